@@ -23,11 +23,12 @@ META = {
 META["explanation"] += '  sort2-second-graph-in-process: another build of the graph sorted first in the same execution.  tokens/cli/sort.py: the path tokenizer decided as a language by z3.'
 META["explanation"] += '  The replay sorts the records twice: pure ASCII and with a comment field of multi-byte characters.'
 META["explanation"] += '  Paths with a reversed middle node between two equally oriented ones are in the sort1 list.'
+META["explanation"] += '  runsort/graph-from-text: run_sort with the tagged graph read by the real read_graph from text; the reference contig is called chr2:1000-2000.'
 
 
 def harnesses(tier):
     hs = []
-    one = [">s1", "<s1", ">x1", ">s1>x1", ">s1<s2", "<s2<x1<s1", ">s1<x1<s2", ">x1>s2", ">s1<x1>s2", "<s1>x1<s2"]
+    one = [">s1", "<s1", ">x1", ">s1>x1", ">s1<s2", "<s2<x1<s1", ">s1<x1<s2", ">x1>s2", ">s1<x1>s2", "<s1>x1<s2", ">t1"]
     for p in one:
         hs.append({"id": "sort1/" + p, "params": {"kind": "sort", "paths": [p], "scaffold_ref": False}, "timeout": 200,
                    "twin": p == ">s1>x1"})
@@ -46,16 +47,48 @@ def harnesses(tier):
     three = [(">s1", ">x1", "<s1")]
     if tier == "thorough":
         three += [(">s1>x1", "<s2", ">x1"), (">s1", ">s1", ">s1"), (">x1", ">s1<s2", "<s2<x1<s1")]
-        for p in ("<x1<s1", ">s1>x1>s2", "<s1>s2", ">t1"):
+        for p in ("<x1<s1", ">s1>x1>s2", "<s1>s2", "<t1"):
             hs.append({"id": "sort1/" + p, "params": {"kind": "sort", "paths": [p], "scaffold_ref": False}, "timeout": 300})
     for c in three:
         hs.append({"id": "sort3/" + "+".join(c), "params": {"kind": "sort", "paths": list(c)},
                    "timeout": 300 if tier == "quick" else 900})
     hs.append(tokfam.harness("C09", "gaftools/cli/sort.py"))
+    hs.append({"id": "runsort/graph-from-text", "params": {"kind": "text"}, "timeout": 300})
     return hs
 
 
+def build_text(params):
+    """run_sort end to end with the tagged graph read by the real read_graph from text: the reference contig has a region-style name
+    with colons, one segment carries an annotation with blanks"""
+    from ..engine import Harness
+    from .. import stubs
+
+    contig = F.NODES["t1"][0]
+
+    def case(bsel, c0, c1, w0, w1):
+        S = F.M["S"]
+        e = stubs.env()
+        bo = 0 if bsel == 0 else (5 if bsel == 1 else 300)
+        e.files["g.gfa"] = stubs.MFile("text", [
+            "H\tVN:Z:1.0\n",
+            "S\tt1\t*\tLN:i:500\tSN:Z:%s\tSO:i:0\tSR:i:0\tDS:Z:primary assembly, patch 2\tBO:i:%d\tNO:i:0\n" % (contig, bo),
+            "S\tx9\t*\tLN:i:5\tSN:Z:hapX\tSO:i:0\tSR:i:1\tBO:i:7\tNO:i:1\n", "L\tt1\t+\tx9\t+\t0M\n"], None)
+        lines = F.build_lines([">t1"], [(500, 1, 2)])
+        e.files["in.gaf"] = stubs.MFile("text", lines, [c0, c1])
+        e.writer_cookies["o.gaf"] = [w0, w1]
+        S.run_sort("g.gfa", "in.gaf", outgaf="o.gaf")
+        out = [str(l).rstrip("\n") for l in e.files["o.gaf"].lines]
+        want = str(lines[0]).rstrip("\n") + "\tbo:i:%d\tsn:Z:%s\tiv:i:0" % (bo, contig)
+        if out != [want]:
+            return "run_sort wrote %r, expected %r" % (out, [want])
+        return None
+
+    return Harness([("bsel", "int"), ("c0", "int"), ("c1", "int"), ("w0", "int"), ("w1", "int")], ["0 <= bsel <= 2 and 0 <= c0 < c1 and 0 <= w0 < w1"], case)
+
+
 def build(params):
+    if params.get("kind") == "text":
+        return build_text(params)
     if params.get("kind") == "tokens":
         return Direct(lambda: tokfam.run(params))
     return F.build_sort(params, "C09")
@@ -94,6 +127,16 @@ def lines_by_name(lines):
 def replay(params, model, wd):
     if params.get("kind") == "tokens":
         return tokfam.replay(params, model, wd)
+    if params.get("kind") == "text":
+        bo = [0, 5, 300][model["args"][0]]
+        tags, paths, nums = {"t1": (bo, 0)}, [">t1"], [(500, 1, 2)]
+        lines, outl, offs, idx, err = F.real_sort(wd, paths, tags, nums)
+        if err:
+            return {"reproduced": True, "key": "C09:text:exception", "what": "run_sort raised " + err}
+        v = concrete_content_violation(paths, tags, nums, lines, outl)
+        if v:
+            return {"reproduced": True, "key": "C09:text:" + v[0], "what": v[1], "files": {"gaf": lines, "output": outl}}
+        return {"reproduced": False, "detail": "real run_sort output matches"}
     used, tags, nums = F.decode_sort(params, model)
     paths = params["paths"]
     import os
